@@ -1124,7 +1124,7 @@ func (in *Interp) binop(op token.Token, xt types.Type, a, b Value, yt types.Type
 			if bt.Kind() == types.Float32 && r.IsConst() {
 				r = in.tt.Float(float64(float32(r.f)), r.sort)
 			}
-			if in.cfg.Dom == SReal && op == token.QUO && !y.IsConst() {
+			if in.cfg.Dom == SReal && op == token.QUO && (!y.IsConst() || (!x.IsConst() && y.r == nil && y.f == 0)) {
 				// division by zero: the IEEE result is a non-finite constant chosen by the sign of x
 				if in.branch(in.tt.Eq(y, in.tt.Float(0, SReal)), "div-by-zero") {
 					zero := in.tt.Float(0, SReal)
